@@ -266,7 +266,10 @@ def finish(prop, tier, seed, level, results, t_start, repo, functions_under_cont
         cov["obligations"], cov["discharged"] = 0, 0     # schema then rejects the record: a proof claim needs discharged proof obligations
     ev = dict(property_id=prop, tier=tier, seed=seed, level=level, coverage=cov,
               assumptions=assumptions, wall_s=round(time.time() - t_start, 2), violations=len(vio_records))
-    with open(os.path.join(VERIF, "evidence", "%s.json" % prop), "w") as f:
+    # VERIF_EVIDENCE_DIR: runs against a scratch tree (seeded-change regression) keep their evidence away from evidence/
+    evdir = os.environ.get("VERIF_EVIDENCE_DIR") or os.path.join(VERIF, "evidence")
+    os.makedirs(evdir, exist_ok=True)
+    with open(os.path.join(evdir, "%s.json" % prop), "w") as f:
         json.dump(ev, f, indent=1, default=str)
     print("%s %s: %d proof obligations (%d discharged), %d bounded (%d), %d enumerated (%d); %d known finding(s); exit %d; %.1fs"
           % (prop, tier, total_proof, dis_proof, n_ob.get("bounded", 0), n_dis.get("bounded", 0), n_ob.get("enumerated", 0),
